@@ -161,5 +161,19 @@ PROPS['C09'] = {
                   'sound for the theorem\'s hypotheses).',
 }
 
+PROPS['C15'] = {
+    'module': 'Yabgp.Props.C15',
+    'theorems': ['Yabgp.C15_ipv4_prefixes', 'Yabgp.C15_ipv4_prefixes_concat', 'Yabgp.C15_ipv4_prefixes_own',
+                 'Yabgp.C15_communities', 'Yabgp.C15_cluster_list', 'Yabgp.C15_large_communities',
+                 'Yabgp.C15_aspath_segments', 'Yabgp.C15_open_capabilities', 'Yabgp.C15_open_parameters',
+                 'Yabgp.C15_unknown_capability', 'Yabgp.C15_attr_perm', 'Yabgp.C15_unknown_attr_inserted'],
+    'genagree': ['Yabgp.GenAgree.attr_codes', 'Yabgp.GenAgree.attr_ids', 'Yabgp.GenAgree.capability_codes'],
+    'suites': ['compose', 'refupdate'],
+    'cannot': 'PARTIAL: proved for IPv4 prefix lists, communities, cluster lists, large communities, AS_PATH/AS4_PATH segments, '
+              'OPEN capabilities / optional parameters (for arbitrary capability TLVs), path-attribute order and unknown-attribute '
+              'insertion; the multiprotocol list kinds (IPv6, labeled, VPN, EVPN, flowspec), extended communities and the BGP-LS / '
+              'Prefix-SID TLV containers are not in this check yet',
+}
+
 # properties not claimed yet, with the reason that goes into MANIFEST.not_applicable
 NOT_YET = {}
